@@ -220,6 +220,8 @@ class AdapterCutter(SingleEndModifier):
         """
         matches = []
         if self.action == "lowercase":  # TODO this should not be needed
+            # Work on a copy: The caller may still need the unmodified read
+            read = read[:]
             read.sequence = read.sequence.upper()
         trimmed_read = read
         for _ in range(self.times):
